@@ -1,46 +1,15 @@
-"""Per-property run specifications for /verif/check.
+"""Per-property run specifications for /verif/check: one fragment per property in /verif/cfg/<ID>.py defining CHECK.
 
-Each tier is a list of run specs: pkg (harness test package), run (-test.run regexp), checks (rapid cases per shard),
-shards (parallel processes, one seed each), race, timeout (s), env, scale (VERIF_SCALE for enumerating sub-runs).
+Each tier (quick/thorough/replay) is a list of run specs: pkg (harness test package), run (-test.run regexp), checks (rapid cases per
+shard), shards (parallel processes, one seed each), race, timeout (s), env, scale (VERIF_SCALE for enumerating sub-runs), steps, args.
+Other keys: level, rule, level_text, level_note, technique, assumptions, exhaustive.
 """
+import glob, os, runpy
 
+_here = os.path.dirname(os.path.abspath(__file__))
 CHECKS = {}
+for _f in sorted(glob.glob(os.path.join(_here, "cfg", "C*.py"))):
+    CHECKS[os.path.basename(_f)[:-3]] = runpy.run_path(_f)["CHECK"]
 
-# Properties without a committed check yet (kept current; emptied as checks land).
+# Properties without a committed check (kept current).
 NOT_APPLICABLE = {("C%02d" % i): "check not built yet in this session (planned, see DESIGN.md §4)" for i in range(1, 21)}
-
-CHECKS["C07"] = {
-    "level": "exploration",
-    "rule": "exhaustive header pairs over (height,maxHeightGenerated,maxHeightPrevoted) in 0..R x same/different generator + rapid "
-            "pairs over uint32 boundary values; fork-choice inputs over all equality patterns; chains of a protocol-following "
-            "generator replayed through the real BFT module. Non-trivial = same-generator pair with at least one field tie, or a "
-            "fork-choice input on which >=2 predicates are true, or a chain case in which the generator switched chains; "
-            "distinct by digest of the field tuple",
-    "level_text": "Exhaustive comparison of the contradiction relation with the LIP-0014 definition and with the semantic statement "
-                  "(neither header is a legitimate successor of the other) over all field triples in 0..6 (0..8 thorough), random uint32 "
-                  "pairs, all fork-choice predicate patterns with the first-match classification order, and replayed two-branch chains of "
-                  "protocol-following generators through the real BFT module. Exhaustive on the small domain, sampled beyond it.",
-    "level_note": "Trusts my transcription of LIP-0014; wall clock steered by slot placement (500 s margins).",
-    "technique": "exhaustive enumeration + property-based testing (rapid) against a LIP-0014 reference",
-    "assumptions": ["reference = my transcription of LIP-0014", "wall clock read by forkchoice.NewForkChoice is steered by slot placement"],
-    "quick": [{"pkg": "c07", "checks": 3000, "timeout": 600}],
-    "thorough": [{"pkg": "c07", "checks": 30000, "shards": 8, "scale": 1.5, "timeout": 1500}],
-}
-
-CHECKS["C02"] = {
-    "level": "exploration",
-    "rule": "rapid-generated single chains of headers (genesis height 0/1/1000, batch size 2-6, length up to 6*batchSize+2, generators active/"
-            "standby/removed, maxHeightGenerated honest/0/h-1/>=h/random, aggregate commits, legal parameter changes incl. no-ops) replayed through "
-            "the real liskbft module and a height-indexed LIP-0058 model, compared after every header; plus SetBFTParameters validation cases and "
-            "fault-free round-robin runs with the two-quorum finality bound. Non-trivial = chain longer than the 3*batchSize window with at least "
-            "one of {effective parameter change, validator joined/left, header with maxHeightGenerated>=height, certified height advanced}; "
-            "round-robin runs longer than the window; rejected parameter sets. Distinct by digest of the full step list",
-    "level_text": "Differential test of the real BFT module against an independent transcription of LIP-0058 after every header of generated "
-                  "chains: three heights, per-block prevote/precommit weights, per-validator vote info, parameter lookups/pruning, plus byte-level "
-                  "determinism of two nodes fed the same chain and a model-independent finality bound in fault-free round-robin runs.",
-    "level_note": "Model is my reading of LIP-0058; only headers verifyBlock admits (consecutive heights, maxHeightPrevoted = node value, not contradicting).",
-    "technique": "property-based differential testing (rapid) against a LIP-0058 reference model",
-    "assumptions": ["LIP-0058 transcription in harness/model/bft", "ImpliesMaximalPrevotes not asserted (outside the statement)"],
-    "quick": [{"pkg": "c02", "checks": 1500, "timeout": 600}],
-    "thorough": [{"pkg": "c02", "checks": 12000, "shards": 16, "timeout": 2400}],
-}
